@@ -150,6 +150,22 @@ def run(ck):
         for pr, r in zip(pairs, pmap(lambda p: ex.run_history(list(p)), pairs)):
             total_trans += 1
             on_step([pr[0]], pr[1], r['steps'][-1][0], r)
+        # a call ABANDONED half way (blocked on its output, the program's timeout handler longjmps out of it; equally: a vfork child killed inside the
+        # wrapper) comes first, once or twice; whatever it was configured with, the next call is a call like any other
+        stale = (b'[snoopy]\nmessage_format = STALE-FORMAT %{filename}\nfilter_chain = only_root\nerror_logging = yes\nsyslog_ident = staleident\nsyslog_facility = LOCAL6\nsyslog_level = DEBUG\n'
+                 b'datasource_message_max_length = 300\nlog_message_max_length = 400\noutput = file:stuck\n')
+        L2 = dict(L)
+        L2['abandoned_midway'] = ['resetsinks', 'fillfifo ' + H.hx(b'stuck'), 'cfg ' + H.hx(stale), 'abandon']
+        ex2 = hist.Explorer(v['h_exec'], symfile, os.path.join(ck.workdir, vname + '-abandoned'), ['sinks pipe', 'errno -1'], L2, warmup=['cfgnone', 'call execve h2f77 [h77] [] -1 2'])
+        followers = [n for n in names if not n.endswith('/v')] if ck.tier == 'thorough' else [n for n in names if n.endswith('/s')]
+        hists = [['abandoned_midway', b] for b in followers] + [['abandoned_midway', 'abandoned_midway', b] for b in followers[:12]]
+        for hh, r in zip(hists, pmap(lambda p: ex2.run_history(list(p)), hists)):
+            total_trans += 1
+            ab = [c for c, _ in r['steps'][:-1] if c is not None]
+            if len(ab) != len(hh) - 1 or any(c.get('call') != 'abandoned' or c.get('returned_normally') for c in ab):
+                if r['ok']:
+                    raise RuntimeError('the abandoned call was not abandoned: %r' % (ab,))
+            on_step(hh[:-1], hh[-1], r['steps'][-1][0], r)
         # state report (information)
         if res['states'] > 2:
             ks = list(res['seen'])
